@@ -19,8 +19,25 @@ class UserBase(BaseException):
     pass
 
 
+class StrRaises(BaseException):
+    """an exception whose text cannot be produced (e.g. it is fetched from a remote service that is down)"""
+
+    def __str__(self):
+        raise ConnectionError("cannot fetch the message")
+
+    __repr__ = BaseException.__repr__
+
+
+def _s(e):
+    try:
+        return str(e)[:80]
+    except BaseException:  # noqa
+        return "<str() raises>"
+
+
 EXCS = {"ValueError": lambda: ValueError("boom"), "UserKeyError": lambda: UserKeyError("k"), "KeyboardInterrupt": lambda: KeyboardInterrupt(),
-        "SystemExit": lambda: SystemExit(3), "UserBase": lambda: UserBase("b"), "GeneratorExit": lambda: GeneratorExit()}
+        "SystemExit": lambda: SystemExit(3), "UserBase": lambda: UserBase("b"), "GeneratorExit": lambda: GeneratorExit(),
+        "StrRaises": lambda: StrRaises()}
 
 
 def reach(spec, fname, seen=None):
@@ -72,7 +89,7 @@ def one_case(world, spec, entry, store_kind, failing, excname, follow):
         if real.status == "ok":
             bad("swallowed", f"dds returned {real.value!r} although the user function raised")
         elif real.excobj is not exc:
-            bad("exception_replaced", f"dds raised {type(real.excobj).__name__}: {str(real.excobj)[:80]} instead of the user's exception object")
+            bad("exception_replaced", f"dds raised {type(real.excobj).__name__}: {_s(real.excobj)} instead of the user's exception object")
         after = prog.store_state()
         new_blobs = set(after[0]) - set(before[0])
         # nodes whose evaluation contains the failing function cannot have completed
@@ -98,6 +115,11 @@ def one_case(world, spec, entry, store_kind, failing, excname, follow):
                 reachable = reach(spec, spec["entries"][entry]["fn"])
                 if not ran <= should_run:
                     bad("followup_recomputed", f"next evaluation re-executed {sorted(ran - should_run)} whose blobs were stored")
+                # the repaired evaluation commits its paths like an evaluation that never failed
+                now = prog.store_state()[1]
+                missing = {p: k for p, k in r2.sigs.items() if now.get(p) != k} if store_kind != "dbfs" else {}
+                if missing or (r2.sigs != sigs and entry in ("eval_root",)):
+                    bad("followup_paths_not_committed", f"after the successful retry the paths {sorted(missing) or 'signatures'} are not committed to what the evaluation computed")
         elif follow == "same_armed":
             exc2 = EXCS[excname]()
             r2, ref2 = prog.run(entry, fault=(failing, exc2))
@@ -139,7 +161,7 @@ def programs(tier):
 
 def cases(tier):
     out = []
-    excs = ["ValueError", "KeyboardInterrupt", "UserBase"] if tier == "quick" else list(EXCS)
+    excs = ["ValueError", "KeyboardInterrupt", "UserBase", "StrRaises"] if tier == "quick" else list(EXCS)
     stores = ["memory", "local"] if tier == "quick" else ["memory", "local", "local_cache2"]
     for sp in programs(tier):
         fns = [f["name"] for f in sp["funcs"]]
